@@ -650,7 +650,9 @@ pub fn all_extension_subsets() -> Vec<Extensions> {
 pub struct Parsers {
     pub empty: Converter,
     pub bundled: Converter,
-    cache: std::collections::HashMap<(u32, bool), CooklangParser>,
+    /// further converters registered by a monitor under a name (e.g. one built from layers)
+    extra: std::collections::HashMap<String, Converter>,
+    cache: std::collections::HashMap<(u32, String), CooklangParser>,
 }
 
 impl Parsers {
@@ -658,21 +660,29 @@ impl Parsers {
         Parsers {
             empty: Converter::empty(),
             bundled: Converter::bundled(),
+            extra: Default::default(),
             cache: Default::default(),
         }
     }
+    pub fn register(&mut self, name: &str, conv: Converter) {
+        self.extra.insert(name.to_string(), conv);
+    }
     pub fn conv(&self, name: &str) -> &Converter {
+        if let Some(c) = self.extra.get(name) {
+            return c;
+        }
         match name {
             "empty" => &self.empty,
             _ => &self.bundled,
         }
     }
     pub fn parser(&mut self, ext: u32, conv: &str) -> &CooklangParser {
-        let key = (ext, conv == "empty");
+        let name = if self.extra.contains_key(conv) || conv == "empty" { conv } else { "bundled" };
+        let key = (ext, name.to_string());
         if !self.cache.contains_key(&key) {
             let c = self.conv(conv).clone();
             self.cache
-                .insert(key, CooklangParser::new(Extensions::from_bits_retain(ext), c));
+                .insert(key.clone(), CooklangParser::new(Extensions::from_bits_retain(ext), c));
         }
         &self.cache[&key]
     }
